@@ -77,6 +77,13 @@ def ops(tier, cfg):
                     continue
                 L.append((f"{f}[{t}|{n}]", t, (n,), t, (n,), t, (1,), f"r(0) = {f}(a);", False, True))
             L.append((f"inner[{t}|{n}]", t, (n,), t, (n,), t, (1,), "r(0) = inner(a,b);", False, False))
+        # long vectors: the unrolled blocks of the reduction loops (four / eight vectors per trip) and their remainders
+        for n in (8 * W + 3,) if tier == "quick" else (4 * W + 1, 8 * W, 8 * W + 3):
+            for f in ("sum", "min", "max", "product") + (("norm",) if fp else ()):
+                L.append((f"{f}[{t}|{n}]", t, (n,), t, (n,), t, (1,), f"r(0) = {f}(a);", False, True))
+                L.append((f"{f}_expr[{t}|{n}]", t, (n,), t, (n,), t, (1,), f"r(0) = {f}(a + b);", False, True))
+            L.append((f"inner[{t}|{n}]", t, (n,), t, (n,), t, (1,), "r(0) = inner(a,b);", False, False))
+            L.append((f"ew_mulacc[{t}|{n}]", t, (n,), t, (n,), t, (n,), "r += a * b - a;", False, True))
         tr = [(2, 2), (3, 3), (4, 4), (8, 8), (3, 5), (5, 3), (W + 1, 2 * W + 1), (2 * W, W), (1, W + 1)]
         if tier == "quick":
             tr = tr[:6]
